@@ -341,11 +341,12 @@ def beginFile (cfg : Cfg) (d : ParsedData) : Str :=
    else s%"package " ++ cfg.package ++ nl) ++
   s%"\nimport kotlinx.serialization.Serializable\nimport kotlinx.serialization.SerialName\n\n"
 
-/-- `write_imports` (kotlin.rs:288): one line per type, names as they are in the *Rust* source
-(no prefix), then an empty line -/
+/-- `write_imports` (kotlin.rs:288): one line per type, `import <package>.<crate>.<prefix><name>`
+(since the `fix:` commit abe0590 the name carries the configured prefix, like the definition in
+the other module; before it the line named the type as in the *Rust* source), then an empty line -/
 def writeImports (cfg : Cfg) (imports : Pipeline.ScopedCrateTypes) : Str :=
   (imports.flatMap fun (path, tys) =>
-    tys.flatMap fun t => s%"import " ++ cfg.package ++ s%"." ++ path ++ s%"." ++ t ++ nl) ++ nl
+    tys.flatMap fun t => s%"import " ++ cfg.package ++ s%"." ++ path ++ s%"." ++ cfg.pfx ++ t ++ nl) ++ nl
 
 /-- `Language::generate_types` for one output file -/
 def generate (cfg : Cfg) (d : ParsedData) (imports : Option Pipeline.ScopedCrateTypes) : Outcome Str :=
